@@ -427,15 +427,30 @@ fn run_history(cx_out: &mut Out, rt: &tokio::runtime::Runtime, rng: &mut Rng, hi
                     check_log(&after, &mut fails, executed.len() - 1);
                 }
             }
-            // height never decreases, rows never fall below an executed prune point
-            let heights = heights_of::<Custom>(&store, &all_logs).await;
-            for (k, h) in &heights_before {
-                match heights.get(k) {
-                    Some(h2) if h2 >= h => {}
-                    other => fails.push(("height-decreased".into(), format!("event {}: height of a log went from {} to {:?}", executed.len() - 1, h, other))),
+            // height never decreases: the touched log after every event, all logs every 16 events
+            let scope: BTreeSet<(VerifyingKey, u64)> = if executed.len() % 16 == 0 {
+                all_logs.clone()
+            } else {
+                match executed.last() {
+                    Some(Event::Deliver(i, _)) | Some(Event::Prune(i)) => {
+                        [(decls[*i].op.header.verifying_key, log_of(&decls[*i].op))].into_iter().collect()
+                    }
+                    None => BTreeSet::new(),
+                }
+            };
+            let heights = heights_of::<Custom>(&store, &scope).await;
+            for (a, l) in &scope {
+                let k = (a.as_bytes().to_vec(), *l);
+                if let Some(h) = heights_before.get(&k) {
+                    match heights.get(&k) {
+                        Some(h2) if h2 >= h => {}
+                        other => fails.push(("height-decreased".into(), format!("event {}: height of a log went from {} to {:?}", executed.len() - 1, h, other))),
+                    }
+                }
+                if let Some(h2) = heights.get(&k) {
+                    heights_before.insert(k, *h2);
                 }
             }
-            heights_before = heights;
         }
         let rows = rows_of::<Custom>(&store, &all_logs, &flag_by_id).await;
         for ((a, l), n) in &pruned_to {
@@ -611,7 +626,7 @@ fn main() {
     run_history(&mut out, &rt, &mut rng, w);
     let (n_hist, max_len, perm_universes) = match args.tier {
         Tier::Quick => (250usize, 14usize, 3usize),
-        Tier::Thorough => (12_000, 25, 40),
+        Tier::Thorough => (4_000, 22, 12),
         Tier::Search => (1500, 20, 10),
     };
     for k in 0..n_hist {
